@@ -44,10 +44,12 @@ func concLRU(args []string) int {
 	fs := flag.NewFlagSet("conc-lru", flag.ExitOnError)
 	out := fs.String("out", "", "trace")
 	nh := fs.Int("histories", 300, "histories")
+	nhot := fs.Int("hot", 0, "further tiny histories: a few goroutines store the same new key at the same moment")
 	fs.Parse(args)
 	r := seededRand(11)
 	w := newTraceWriter(*out)
-	for h := 1; h <= *nh; h++ {
+	for h := 1; h <= *nh+*nhot; h++ {
+		hot := h > *nh
 		capReq := 1 + r.Intn(3)
 		ttl := 0
 		var real time.Duration
@@ -61,6 +63,9 @@ func concLRU(args []string) int {
 			k = 4
 		}
 		nkeys := 2 + r.Intn(2)
+		if hot {
+			g, k, nkeys = 2+r.Intn(3), 1+r.Intn(2), 2
+		}
 		var ctr int64
 		var mu sync.Mutex
 		var evs []concEv
@@ -78,13 +83,22 @@ func concLRU(args []string) int {
 				plans[t] = append(plans[t], planned{ops[r.Intn(len(ops))], 1 + r.Intn(nkeys), h*1000 + val})
 			}
 		}
-		start := make(chan struct{})
+		if h%3 == 0 || hot { // hot start: every goroutine begins by storing the same, not yet cached key
+			for t := 0; t < g; t++ {
+				plans[t][0].op, plans[t][0].k = "put", 1
+				if hot && k > 1 {
+					plans[t][1].op = "put"
+				}
+			}
+		}
+		var start int32 // spin barrier: the goroutines leave it within a few nanoseconds of each other
 		var wg sync.WaitGroup
 		for t := 0; t < g; t++ {
 			wg.Add(1)
 			go func(t int) {
 				defer wg.Done()
-				<-start
+				for atomic.LoadInt32(&start) == 0 {
+				}
 				local := make([]concEv, 0, 2*k)
 				for _, p := range plans[t] {
 					ce := concEv{Kind: "call", T: t + 1, Op: p.op, K: p.k, V: p.v, Tr: h}
@@ -116,8 +130,45 @@ func concLRU(args []string) int {
 				mu.Unlock()
 			}(t)
 		}
-		close(start)
+		atomic.StoreInt32(&start, 1)
 		wg.Wait()
+		// sequential epilogue (one more thread, nothing overlaps): whatever the concurrent phase left behind must still
+		// behave like the cache the specification reached - sizes, every key, evictions forced by fresh keys, every key again
+		epi := []planned{{"stats", 0, 0}, {"size", 0, 0}}
+		for kk := 1; kk <= nkeys; kk++ {
+			epi = append(epi, planned{"get", kk, 0})
+		}
+		for j := 1; j <= c.Capacity(); j++ {
+			val++
+			epi = append(epi, planned{"put", nkeys + j, h*1000 + val}, planned{"size", 0, 0})
+		}
+		epi = append(epi, planned{"stats", 0, 0})
+		for kk := 1; kk <= nkeys+c.Capacity(); kk++ {
+			epi = append(epi, planned{"get", kk, 0})
+		}
+		for _, p := range epi {
+			ce := concEv{Kind: "call", T: g + 1, Op: p.op, K: p.k, V: p.v, Tr: h}
+			re := concEv{Kind: "ret", T: g + 1, Op: p.op, K: p.k, V: p.v, Tr: h}
+			key := strconv.Itoa(p.k)
+			ce.stamp = atomic.AddInt64(&ctr, 1)
+			switch p.op {
+			case "get":
+				v, ok := c.Get(key)
+				re.Found = ok
+				if ok {
+					re.RV = v.(int)
+				}
+			case "put":
+				c.Put(key, p.v)
+			case "size":
+				re.N = c.Size()
+			case "stats":
+				st := c.Stats()
+				re.N, re.RH, re.RM, re.RE = st.Size, st.Hits, st.Misses, st.Evictions
+			}
+			re.stamp = atomic.AddInt64(&ctr, 1)
+			evs = append(evs, ce, re)
+		}
 		sort.Slice(evs, func(i, j int) bool { return evs[i].stamp < evs[j].stamp })
 		w.emit(&concEv{Kind: "new", Cap: c.Capacity(), CapReq: capReq, TTL: ttl, Tr: h})
 		for i := range evs {
